@@ -412,7 +412,8 @@ func (g *Gen) bigVecMerge() {
 	nd := len(b.Docs)
 	var dropped []int
 	frac := 0.1
-	if g.chance(0.5) {
+	variant := g.stats["vec.bigmerge"] % 3 // 0: exactly 1000 survivors, 1: fewer than 1000, 2: a few deletions
+	if variant == 1 {
 		// so many deletions that fewer than 1000 vectors survive: the merged index is an exact one again
 		frac = 0.45
 		g.st("vec.bigmerge.exactagain")
@@ -422,7 +423,7 @@ func (g *Gen) bigVecMerge() {
 			dropped = append(dropped, d)
 		}
 	}
-	if g.chance(0.4) {
+	if variant == 0 {
 		// exactly 1000 surviving vectors: the smallest clustered index
 		dropped = dropped[:0]
 		left := countVecs(b, "vecA")
